@@ -78,6 +78,12 @@ func Lookalikes(level int) []*tv.Package {
 	add("log/only-statement-of-loop", "func FN(n uint64) uint64 {\n\tfor i := uint64(0); i < n; i++ {\n\t\tlog.Printf(\"i %d\", i)\n\t}\n\treturn n\n}", "small:n")
 	add("log/last-statement", "func FN(p *Pt) {\n\tp.X = 1\n\tlog.Println(\"done\")\n}")
 	add("log/before-return-in-then", "func FN(x uint64) uint64 {\n\tif x > 1 {\n\t\tlog.Println(\"big\")\n\t\treturn 1\n\t}\n\treturn 2\n}")
+	// user declarations named like the GooseLang vocabulary the translation itself uses: the emitted
+	// file defines the name, and every later use of the primitive in the file resolves to that definition
+	add("vocab/func-named-Continue", "func Continue() uint64 {\n\treturn 7\n}\n\nfunc FN(n uint64) uint64 {\n\tvar s uint64 = 0\n\tfor i := uint64(0); i < n; i++ {\n\t\tif i == 1 {\n\t\t\tcontinue\n\t\t}\n\t\ts += i\n\t}\n\treturn s + Continue()\n}", "small:n")
+	add("vocab/func-named-NewMap", "func NewMap(x uint64) uint64 {\n\treturn x + 1\n}\n\nfunc FN(k uint64) uint64 {\n\tm := make(map[uint64]uint64)\n\tm[k] = NewMap(k)\n\treturn m[k]\n}")
+	add("vocab/func-named-Skip", "func Skip() uint64 {\n\treturn 5\n}\n\nfunc FN(n uint64) uint64 {\n\tvar s uint64 = Skip()\n\tfor i := uint64(0); i < n; i++ {\n\t\ts += i\n\t}\n\treturn s\n}", "small:n")
+	add("vocab/const-named-Break", "const Break uint64 = 3\n\nfunc FN(n uint64) uint64 {\n\tvar s uint64 = Break\n\tfor i := uint64(0); i < n; i++ {\n\t\tif i == 2 {\n\t\t\tbreak\n\t\t}\n\t\ts += i\n\t}\n\treturn s\n}", "small:n")
 	// values that are merely *named* like the logging packages: their methods are ordinary calls
 	add("log/local-named-log", "type FNjournal struct {\n\ttotal uint64\n}\n\nfunc (j *FNjournal) Println(v uint64) {\n\tj.total = j.total + v\n}\n\nfunc FN(x uint64) uint64 {\n\tlog := &FNjournal{}\n\tlog.Println(x)\n\tlog.Println(4)\n\treturn log.total\n}")
 	add("log/local-named-fmt", "type FNsink struct {\n\tn uint64\n}\n\nfunc (s *FNsink) Printf(v uint64, w uint64) {\n\ts.n = s.n + v*2 + w\n}\n\nfunc FN(x uint64) uint64 {\n\tfmt := &FNsink{}\n\tfmt.Printf(x, 1)\n\treturn fmt.n\n}")
